@@ -539,6 +539,99 @@ DETAIL["c23_fs_options"] = lambda reject, ext_i, enc_i, two_paths, ns: {"reject_
                                                                           "two search paths": two_paths, "failing": _fs_options_sweep(reject, ext_i, enc_i, two_paths, ns)[:3]}
 CONDITIONS.append({"fn": "c23_fs_options", "quick": 60, "thorough": 120, "sel_only": True})
 
+# ---- overlapping asynchronous requests (one event loop, several requests in flight; the solver picks how many times each
+# executor call yields, i.e. the order in which the loads complete) ---------------------------------------------------------
+import asyncio as _real_asyncio  # noqa: E402
+
+
+class _YieldingLoop:
+    def __init__(self, delays):
+        self.delays = list(delays)
+        self.calls = 0
+
+    def run_in_executor(self, ex, fn, *args):
+        d = self.delays[self.calls % len(self.delays)]
+        self.calls += 1
+
+        async def _r():
+            for _ in range(d):
+                await _real_asyncio.sleep(0)
+            return fn(*args)
+        return _r()
+
+
+class _YieldingAsyncio:
+    def __init__(self, delays):
+        self.loop = _YieldingLoop(delays)
+
+    def get_running_loop(self):
+        return self.loop
+
+
+_OV_REQS = [("a.liquid", "alice"), ("a.liquid", "bob"), ("b.liquid", "carol"), ("a.liquid", None), ("sub/a.liquid", "dave"), ("a.liquid", "erin")]
+
+
+def _fs_overlap_case(choice, delays, nreq, warm, auto_reload):
+    """Failing rounds: the answers (name, text rendered at once) of nreq requests in flight together, from the caching and
+    from the plain loader; a second round repeats them on the now warm cache."""
+    root = tempfile.mkdtemp(prefix="c23v-", dir=WORK)
+    saved = FS.asyncio
+    bad = []
+    try:
+        os.makedirs(os.path.join(root, "sub"))
+        for rel, text in (("a.liquid", "A {{ who }}"), ("b.liquid", "B {{ who }}"), ("sub/a.liquid", "SUB {{ who }}")):
+            with open(os.path.join(root, rel), "w") as fd:
+                fd.write(text)
+        if choice:
+            lc = CachingChoiceLoader([DictLoader({"zzz": "z"}), FileSystemLoader(root)], auto_reload=auto_reload)
+            lp = ChoiceLoader([DictLoader({"zzz": "z"}), FileSystemLoader(root)])
+        else:
+            lc = CachingFileSystemLoader(root, auto_reload=auto_reload)
+            lp = FileSystemLoader(root)
+        answers = []
+        for env in (Environment(loader=lc), Environment(loader=lp)):
+            async def one(name, who, env=env):
+                try:
+                    t = await env.get_template_async(name, globals=None if who is None else {"who": who})
+                    return (t.name, t.render())          # rendered before anything else can run
+                except LiquidError as e:
+                    return ("err", type(e).__name__)
+
+            async def together(env=env):
+                return await _real_asyncio.gather(*[one(n, w) for n, w in _OV_REQS[:nreq]])
+
+            rounds = []
+            if warm:
+                FS.asyncio = _YieldingAsyncio((0,))
+                _real_asyncio.run(one("a.liquid", "zed"))
+            for _ in range(2):
+                FS.asyncio = _YieldingAsyncio(delays)
+                rounds.append(_real_asyncio.run(together()))
+            answers.append(rounds)
+        if answers[0] != answers[1]:
+            bad.append({"caching": answers[0], "plain": answers[1]})
+        return bad
+    finally:
+        FS.asyncio = saved
+        shutil.rmtree(root, ignore_errors=True)
+
+
+def c23_async_overlap(choice: bool, d0: int, d1: int, d2: int, nreq: int, warm: bool, auto_reload: bool) -> bool:
+    """
+    pre: 0 <= d0 <= 2 and 0 <= d1 <= 2 and 0 <= d2 <= 2 and 2 <= nreq <= 6
+    post: _
+    """
+    if excluded("c23_async_overlap", locals()):
+        return True
+    args = (cbool(choice), (cint(d0, 0, 2), cint(d1, 0, 2), cint(d2, 0, 2)), cint(nreq, 2, 6), cbool(warm), cbool(auto_reload))
+    return finish(untraced(lambda: not _fs_overlap_case(*args)))
+
+
+DETAIL["c23_async_overlap"] = lambda choice, d0, d1, d2, nreq, warm, auto_reload: {"loader": "choice" if choice else "file system", "yields per executor call (cyclic)": (d0, d1, d2),
+                                                                                    "requests in flight": _OV_REQS[:nreq], "warm": warm, "failing": _fs_overlap_case(choice, (d0, d1, d2), nreq, warm, auto_reload)}
+CONDITIONS.append({"fn": "c23_async_overlap", "quick": 90, "thorough": 200, "sel_only": True,
+                   "bounds": "2..6 get_template_async requests in flight on one event loop (3 names, different globals), every executor call yielding 0..2 times in a cyclic pattern chosen by the solver (27 schedules), cold or warm cache, two rounds; caching file-system and choice loaders"})
+
 # ---- namespaces of every truthiness, given by keyword or through the render context (selector pool) ------------------
 class UidLoader(BaseLoader):
     """Per-namespace templates: '<uid>/<name>' when a uid is given (keyword or render context), else '<name>'."""
